@@ -126,3 +126,13 @@ mod tests {
         }
     }
 }
+
+/// Verification hooks (compiled only with `--cfg scrut_verif`): forwarding wrappers that expose
+/// crate-private leaf functions to the external harness crates. No behaviour of its own.
+#[cfg(scrut_verif)]
+pub mod verif_hooks {
+    /// The source text of the regular expression that splits an expectation line
+    pub fn expectation_regex_source(registry: &super::RuleRegistry) -> anyhow::Result<String> {
+        Ok(registry.to_expectation_regex()?.as_str().to_string())
+    }
+}
